@@ -343,6 +343,53 @@ fn usage<T: Transport>(d: &mut AnyDriver<T>, co: &CoRc, steps: usize, keep: &mut
             AnyDriver::Sound(s) => match step {
                 0 => {
                     let _ = s.latest_notification();
+                    // A blocking transfer of three periods to a device that looks at its transmit
+                    // queue only while the driver busy-waits: the call may return only when the
+                    // device is done with every period (their status and stream-id buffers live
+                    // in the call's frame).
+                    use virtio_drivers::device::sound::{PcmFeatures, PcmFormat, PcmRate};
+                    let _ = s.output_streams();
+                    let _ = s.pcm_set_params(0, 8, 4, PcmFeatures::empty(), 1, PcmFormat::U8, PcmRate::Rate8000);
+                    let _ = s.pcm_prepare(0);
+                    let _ = s.pcm_start(0);
+                    co.borrow_mut().responder = Box::new(|q, chain, req| {
+                        if q == 2 || q == 1 || q == 3 {
+                            Action::Hold
+                        } else {
+                            let data = cosim::honest_response(Kind::Sound, q, req, chain.writable_len());
+                            let n = data.len() as u32;
+                            Action::Complete(data, n)
+                        }
+                    });
+                    {
+                        let c2 = co.clone();
+                        let mut n = 0u32;
+                        mmio::set_spin_handler(Some(Box::new(move |_site| {
+                            n += 1;
+                            let mut c = c2.borrow_mut();
+                            if n % 2 == 0 && c.held_count(2) > 0 {
+                                let mut done = [0u8; 8];
+                                done[0..4].copy_from_slice(&0x8000u32.to_le_bytes());
+                                c.complete_held(2, 0, &done, 8);
+                            }
+                            if n > 60 {
+                                panic!("LAB-LIVELOCK: pcm_xfer keeps waiting although the device has answered");
+                            }
+                        })));
+                    }
+                    let r = s.pcm_xfer(0, &[1, 2, 3, 4, 5, 6, 7, 8, 9, 10, 11, 12]);
+                    let still = co.borrow_mut().held_count(2);
+                    if still > 0 {
+                        hal::with(|h| h.fault("returned-while-posted", format!("pcm_xfer returned {:?} while the device still holds {} period(s) of that call on the transmit queue (DRIVER_OK set, queue enabled, no reset)", r, still)));
+                        while co.borrow_mut().held_count(2) > 0 {
+                            let mut done = [0u8; 8];
+                            done[0..4].copy_from_slice(&0x8000u32.to_le_bytes());
+                            co.borrow_mut().complete_held(2, 0, &done, 8);
+                        }
+                    }
+                    let _ = s.pcm_stop(0);
+                    co.borrow_mut().responder = cosim::honest_responder(Kind::Sound);
+                    cosim::install(co);
                 }
                 1 => {
                     use virtio_drivers::device::sound::{PcmFeatures, PcmFormat, PcmRate};
